@@ -376,10 +376,21 @@ def _has_pct(U):
     return any('%' in c for c in comps)
 
 
+def _components(u):
+    port = u.port
+    if port is not None and port == urlutils.SCHEME_PORT_MAP.get(u.scheme, urlutils.SCHEME_PORT_MAP.get((u.scheme or '').split('+')[-1])):
+        port = None         # an explicit default port and no port are the same reference
+    return {'scheme': u.scheme, 'username': u.username, 'password': u.password, 'host': u.host, 'port': port,
+            'path_parts': tuple(u.path_parts), 'query': list(u.query_params.items(multi=True)), 'fragment': u.fragment}
+
+
 def run_c(case):
     out = Outcome()
     t = case['text']
     out.nontrivial = case.get('n', 0) >= 3
+    mm = RE_APPENDIX_B.match(t)
+    if mm and mm.group(4) is not None and mm.group(4).rpartition('@')[2].startswith(':'):
+        return out          # (shrinker artefact) an authority with a port but no host is outside the generated grammar
     r = _call(URL, t)
     if r[0] != 'ok':
         return out.fail('c06.c.parse-raises', 'URL(%r), a grammar-generated reference, -> %r' % (t, r))
@@ -392,6 +403,13 @@ def run_c(case):
     t2 = _call(r2[1].to_text, full_quote=True)
     if t2 != t1:
         return out.fail('c06.c.not-fixed-point', '%r renders to %r, which re-parses and renders to %r' % (t, t1[1], t2))
+    # ... and the rendering must mean the same reference: every component of the re-parsed URL equals the original's
+    # (a text that happens to be a fixed point but is read back as something else - 'a%3Ab' -> 'a:b' = scheme 'a' - is no round trip)
+    c1, c2 = _components(r[1]), _components(r2[1])
+    if c1 != c2:
+        diff = [k for k in c1 if c1[k] != c2[k]]
+        return out.fail('c06.c.components-changed', '%r renders to %r, which parses back with different %s: %r, originally %r' % (
+            t, t1[1], '/'.join(diff), {k: c2[k] for k in diff}, {k: c1[k] for k in diff}))
     if not _has_pct(r[1]):
         m1 = _call(URL(t).to_text, full_quote=False)
         if m1[0] != 'ok':
